@@ -17,7 +17,7 @@ std::string fmt_double(double v) {
 
 namespace {
 
-enum Feature { F_ARITH = 1, F_QUAD = 2, F_ABSMINMAX = 4, F_LOGIC = 8, F_COUNT = 16, F_IF = 32, F_PL = 64, F_DIVPOW = 128, F_FUNC = 256, F_UNSUP = 512 };
+enum Feature { F_ARITH = 1, F_QUAD = 2, F_ABSMINMAX = 4, F_LOGIC = 8, F_COUNT = 16, F_IF = 32, F_PL = 64, F_DIVPOW = 128, F_FUNC = 256, F_UNSUP = 512, F_CONE = 1024 };
 
 struct Ctx {
   sim::Rng& rng;
@@ -61,12 +61,12 @@ Expr gen_num(Ctx& c, int depth) {
   std::vector<int> choices;
   unsigned f = c.features;
   if (f & F_ARITH) { choices.insert(choices.end(), {100, 100, 101, 102, 103}); }
-  if (f & F_QUAD) { choices.insert(choices.end(), {110, 111}); }
+  if (f & F_QUAD) { choices.insert(choices.end(), {110, 111, 112, 113}); }
   if (f & F_ABSMINMAX) { choices.insert(choices.end(), {120, 121, 122}); }
   if (f & F_COUNT) { choices.insert(choices.end(), {130, 131}); }
   if (f & F_IF) { choices.push_back(140); }
   if (f & F_PL) { choices.push_back(150); }
-  if (f & F_DIVPOW) { choices.insert(choices.end(), {160, 161, 162, 163}); }
+  if (f & F_DIVPOW) { choices.insert(choices.end(), {160, 161, 162, 163, 164, 165}); }
   if (f & F_FUNC) { choices.insert(choices.end(), {170, 170}); }
   if (f & F_UNSUP) { choices.push_back(180); }
   if (choices.empty()) return affine(c);
@@ -83,6 +83,8 @@ Expr gen_num(Ctx& c, int depth) {
     }
     case 110: return Expr::Op(2, {var_leaf(c), var_leaf(c)});
     case 111: return Expr::Op(77, {affine(c)});
+    case 112: return Expr::Op(2, {gen_num(c, depth - 1), gen_num(c, depth - 1)});                  // product of arbitrary subexpressions
+    case 113: { Expr e = gen_num(c, depth - 1); return Expr::Op(2, {e, e}); }                       // e * e (the same subexpression twice)
     case 120: return Expr::Op(15, {gen_num(c, depth - 1)});
     case 121: case 122: {
       int n = (int)c.rng.range(2, 3);
@@ -119,13 +121,23 @@ Expr gen_num(Ctx& c, int depth) {
     case 161: return Expr::Op(76, {affine(c), Expr::Num((double)c.rng.range(2, 3))});              // pow const exp
     case 162: return Expr::Op(3, {Expr::Num(1), affine(c)});                                        // 1 / expr
     case 163: return Expr::Op(78, {Expr::Num(2), affine(c)});                                       // const base
+    case 164: {   // the general power operator (o5) with a constant exponent (2: quadratic, other: power constraint) or a constant base
+      int k = (int)c.rng.below(4);
+      if (k == 0) return Expr::Op(5, {gen_num(c, depth - 1), Expr::Num(2)});
+      if (k == 1) return Expr::Op(5, {affine(c), Expr::Num((double)c.rng.range(3, 4))});
+      if (k == 2) return Expr::Op(5, {affine(c), Expr::Num(c.rng.chance(0.5) ? 0.5 : -1)});
+      return Expr::Op(5, {Expr::Num((double)c.rng.range(2, 3)), affine(c)});
+    }
+    case 165: return Expr::Op(3, {gen_num(c, depth - 1), affine(c)});                               // expr / expr
     case 170: {
       static const int fops[] = {44, 43, 41, 46, 38, 39, 42, 51, 53, 49, 40, 45, 37, 50, 52, 47};
       return Expr::Op(fops[c.rng.below(16)], {affine(c)});
     }
     case 180: {
       c.m.uses_unsupported = true;
-      int k = (int)c.rng.below(6);
+      int k = (int)c.rng.below(8);
+      if (k == 6) return Expr::Op(5, {var_leaf(c), var_leaf(c)});       // x ^ y: variable base and exponent
+      if (k == 7) return Expr::Op(14, {affine(c)});                     // ceil
       if (k == 0 && !c.m.funcs.empty()) {
         Expr e; e.kind = 'f'; e.op = (int)c.rng.below(c.m.funcs.size());
         for (int i = 0; i < c.m.funcs[e.op].nargs; ++i) e.args.push_back(affine(c));
@@ -145,7 +157,7 @@ Expr gen_rel(Ctx& c, int depth) {
   static const int rels[] = {22, 23, 24, 28, 29, 30};
   int op = rels[c.rng.below(6)];
   Expr lhs = gen_num(c, depth > 0 ? depth - 1 : 0);
-  Expr rhs = c.rng.chance(0.7) ? Expr::Num((double)c.rng.range(-3, 6)) : gen_num(c, 0);
+  Expr rhs = c.rng.chance(0.7) ? Expr::Num((double)c.rng.range(-3, 6) + (c.rng.chance(0.12) ? 0.5 : 0.0)) : gen_num(c, 0);
   return Expr::Op(op, {lhs, rhs}, true);
 }
 
@@ -173,16 +185,17 @@ Expr gen_log(Ctx& c, int depth) {
         std::vector<Expr> a;
         int n = (int)c.rng.range(2, 3);
         for (int i = 0; i < n; ++i) a.push_back(var_leaf(c));
+        if ((c.features & F_UNSUP) && c.rng.chance(0.3)) { c.m.uses_unsupported = true; return Expr::Op(75, a, true); }   // !alldiff: not implemented by the converter
         return Expr::Op(74, a, true);
       }
       return gen_rel(c, depth);
     case 8:
       if (c.features & F_COUNT) {   // atleast / atmost / exactly: (numeric bound, count expr)
-        static const int ops[] = {62, 63, 66};
+        static const int ops[] = {62, 63, 66, 67, 68, 69};   // atleast atmost exactly + their negations
         std::vector<Expr> la;
         int n = (int)c.rng.range(2, 3);
         for (int i = 0; i < n; ++i) la.push_back(gen_rel(c, 0));
-        return Expr::Op(ops[c.rng.below(3)], {Expr::Num((double)c.rng.range(0, 2)), Expr::Op(59, la)}, true);
+        return Expr::Op(ops[c.rng.below(c.rng.chance(0.25) ? 6 : 3)], {Expr::Num((double)c.rng.range(0, 2)), Expr::Op(59, la)}, true);
       }
       return gen_rel(c, depth);
     default: return gen_rel(c, depth);
@@ -272,9 +285,10 @@ Model generate(sim::Rng& rng, const GenOptions& opt) {
     for (unsigned f : all) if (rng.chance(0.4)) features |= f;
     if (!features) features = F_ARITH | F_ABSMINMAX;
     if (opt.allow_unsupported && rng.chance(0.12)) features |= F_UNSUP;
+    if (con_nl_vars.size() >= 2 && rng.chance(0.2)) features |= F_CONE;
   }
-  static const char* fnames[] = {"arith", "quad", "absminmax", "logic", "count", "if", "pl", "divpow", "func", "unsup"};
-  for (int b = 0; b < 10; ++b) if (features & (1u << b)) { if (!m.features.empty()) m.features += ','; m.features += fnames[b]; }
+  static const char* fnames[] = {"arith", "quad", "absminmax", "logic", "count", "if", "pl", "divpow", "func", "unsup", "cone"};
+  for (int b = 0; b < 11; ++b) if (features & (1u << b)) { if (!m.features.empty()) m.features += ','; m.features += fnames[b]; }
 
   if ((features & F_UNSUP) && rng.chance(0.7)) {
     int nf = (int)rng.range(1, 2);
@@ -326,7 +340,64 @@ Model generate(sim::Rng& rng, const GenOptions& opt) {
       default: a.lb = -base; a.ub = base; break;          // symmetric range
     }
     if (rng.chance(0.03)) { a.lb = -INFINITY; a.ub = INFINITY; }   // free row
-    if (i < n_nl_cons) {
+    if (i < n_nl_cons && (features & F_CONE) && rng.chance(0.6)) {
+      // a constraint in one of the shapes the converter recognises as a (rotated) second-order or exponential cone:
+      // no tag inside the body (it would destroy the shape), no linear part unless the shape has one
+      a.has_nl = true; a.lin.clear();
+      std::vector<int> vs = con_nl_vars;
+      for (size_t k = vs.size(); k > 1; --k) std::swap(vs[k - 1], vs[rng.below(k)]);
+      auto nonneg = [&](int j) { Var& v = m.vars[(size_t)j]; v.lb = 0; v.ub = rng.chance(0.5) ? INFINITY : (double)rng.range(1, 20); if (std::isinf(v.ub)) m.all_bounded = false; };
+      auto sq = [&](int j, double coef) {          // coef * x_j^2, written with o5 (pow 2), o77 (sqr) or x*x
+        int w = (int)rng.below(3);
+        Expr x2 = w == 0 ? Expr::Op(5, {Expr::Var(j), Expr::Num(2)}) : w == 1 ? Expr::Op(77, {Expr::Var(j)}) : Expr::Op(2, {Expr::Var(j), Expr::Var(j)});
+        return coef == 1 ? x2 : Expr::Op(2, {Expr::Num(coef), x2});
+      };
+      auto sum = [&](std::vector<Expr> t) { if (t.size() == 1) return t[0]; if (t.size() == 2) return Expr::Op(0, {t[0], t[1]}); return Expr::Op(54, t); };
+      int nrhs = (int)rng.range(1, std::max(1, std::min((int)vs.size() - 1, 3)));
+      std::vector<Expr> norm2;                        // sum of squares of vs[1..nrhs]
+      for (int k = 1; k <= nrhs && k < (int)vs.size(); ++k) norm2.push_back(sq(vs[(size_t)k], rng.chance(0.5) ? 1.0 : (double)rng.range(2, 9)));
+      if (rng.chance(0.3)) norm2.push_back(Expr::Num((double)rng.range(1, 9)));     // + c^2
+      int shape2 = (int)rng.below(6);
+      int head = vs[0];
+      switch (shape2) {
+        case 0: {   // ||y||^2 <= (b x)^2, x >= 0   (quadratic form)
+          nonneg(head);
+          std::vector<Expr> t = norm2; t.push_back(sq(head, -(double)rng.range(1, 4)));
+          a.nl = sum(t); a.lb = -INFINITY; a.ub = 0; break;
+        }
+        case 1: {   // (b x)^2 >= ||y||^2 written as >=
+          nonneg(head);
+          std::vector<Expr> t; t.push_back(sq(head, (double)rng.range(1, 4)));
+          for (auto& e : norm2) t.push_back(Expr::Op(16, {e}));
+          a.nl = sum(t); a.lb = 0; a.ub = INFINITY; break;
+        }
+        case 2: {   // rotated: ||z||^2 <= k x1 x2, x1, x2 >= 0
+          if (vs.size() < 3) { nonneg(head); std::vector<Expr> t = norm2; t.push_back(sq(head, -1)); a.nl = sum(t); a.lb = -INFINITY; a.ub = 0; break; }
+          int h2 = vs.back(); nonneg(head); nonneg(h2);
+          std::vector<Expr> t;
+          for (int k = 1; k + 1 < (int)vs.size() && k <= 2; ++k) t.push_back(sq(vs[(size_t)k], 1));
+          t.push_back(Expr::Op(2, {Expr::Num(-(double)rng.range(1, 4)), Expr::Op(2, {Expr::Var(head), Expr::Var(h2)})}));
+          a.nl = sum(t); a.lb = -INFINITY; a.ub = 0; break;
+        }
+        case 3: {   // sqrt(||y||^2) <= b x   (linear part carries b x)
+          nonneg(head);
+          a.nl = Expr::Op(39, {sum(norm2)});
+          a.lin.push_back({head, -(double)rng.range(1, 5)}); a.lb = -INFINITY; a.ub = 0; break;
+        }
+        case 4: {   // abs(a y) <= b x
+          nonneg(head);
+          a.nl = Expr::Op(15, {Expr::Op(2, {Expr::Num((double)rng.range(2, 5)), Expr::Var(vs[1])})});
+          a.lin.push_back({head, -(double)rng.range(1, 5)}); a.lb = -INFINITY; a.ub = 0; break;
+        }
+        default: {  // exponential cone: x1 >= x2 * exp(x3 / x2), x1, x2 >= 0
+          if (vs.size() < 3) { nonneg(head); a.nl = Expr::Op(44, {Expr::Var(vs[1])}); a.lin.push_back({head, -1}); a.lb = -INFINITY; a.ub = 0; break; }   // exp(y) <= x
+          nonneg(head); nonneg(vs[1]);
+          a.nl = Expr::Op(2, {Expr::Var(vs[1]), Expr::Op(44, {Expr::Op(3, {Expr::Var(vs[2]), Expr::Var(vs[1])})})});
+          a.lin.push_back({head, -1}); a.lb = -INFINITY; a.ub = 0; break;
+        }
+      }
+      sort_lin(a.lin);
+    } else if (i < n_nl_cons) {
       a.has_nl = true;
       c.nl_vars = con_nl_vars; c.ncommon_avail = (int)m.commons.size();
       Expr body = gen_num(c, (int)rng.range(1, opt.max_depth));
